@@ -14,6 +14,7 @@ import (
 
 const (
 	vnTimeout   = 250 * time.Millisecond // deadline of the `timeout` context
+	vnShort     = 4 * time.Millisecond   // deadline of the `short` context (a closed notify channel still wins at once)
 	guardWait   = 30 * time.Second       // a blocking call that takes longer is reported as a hang
 	vnNumValues = 3
 )
@@ -139,7 +140,7 @@ func (w *world) execVN(f []string) string {
 
 		return "done"
 	case "wait":
-		if len(f) != 3 || (f[2] != "cancelled" && f[2] != "timeout") {
+		if len(f) != 3 || (f[2] != "cancelled" && f[2] != "timeout" && f[2] != "short") {
 			return "bad-op"
 		}
 		if x >= len(v.ls) {
@@ -150,6 +151,8 @@ func (w *world) execVN(f []string) string {
 		if f[2] == "cancelled" {
 			ctx, cancel = context.WithCancel(context.Background())
 			cancel()
+		} else if f[2] == "short" {
+			ctx, cancel = context.WithTimeout(context.Background(), vnShort)
 		} else {
 			ctx, cancel = context.WithTimeout(context.Background(), vnTimeout)
 		}
